@@ -192,6 +192,9 @@ class World:
         elif cfg["space"] == "disclots":
             # a menu of allocations expressed in numbers of contracts
             space = DiscretePortfolio([self.A, self.B], [[float(k), 0.0] for k in range(N_ALLOC)], as_weights=False)
+        elif cfg["space"] == "boxvec":
+            # per-contract bounds: each entry is judged against the bounds of its own contract
+            space = BoxPortfolio([self.A, self.B], low=np.array([-0.5, 0.0]), high=np.array([1.0, 0.25]))
         elif cfg["space"] == "boxpos":
             # bounds that exclude zero: the all-zero action is NOT a member of this space
             space = BoxPortfolio([self.A], low=1.0 / 32, high=1.0)
@@ -281,6 +284,9 @@ class World:
                 return np.array([unit])
             return {"shape": np.array([unit, 0.0]), "above": np.array([1.5]), "below": np.array([0.0]),
                     "nan": np.array([float("nan")]), "index": np.array([[unit]])}[cls]
+        if sp == "boxvec" and cls in ("above", "below"):
+            # outside the bounds of its own contract, inside the loosest bounds of the space
+            return np.array([unit, 0.5]) if cls == "above" else np.array([unit, -0.25])
         lead = [0.5] if sp == "boxcash" else []
         if cls == "ok":
             return np.array(lead + [unit, 0.0])
